@@ -8,6 +8,6 @@ git checkout -q -- . && git clean -fdq src
 git apply "$d/patch.diff" || { echo "patch does not apply"; exit 2; }
 mkdir -p "$wt/.vp-scratch"
 for p in "$@"; do
-  (cd /verif && VERIF_REPO="$wt" VERIF_SCRATCH="$wt/.vp-scratch" ./vp check "$p" 2>&1 | grep -E "VIOLATION|tier=" | cut -c1-400 | head -8)
+  (cd ${VERIF_SNAP:-/verif} && VERIF_REPO="$wt" VERIF_SCRATCH="$wt/.vp-scratch" ./vp check "$p" 2>&1 | grep -E "VIOLATION|tier=" | cut -c1-400 | head -8)
 done
 git checkout -q -- . && git clean -fdq src
